@@ -49,9 +49,12 @@ var bigStr = func() string {
 	return string(b)
 }()
 
+// index kind of t1.tag (set by the *Idx entries before open): index pages are allocated but not logged
+var tagIndex = index_constants.IndexKindInvalid
+
 func open(frames int) *world {
 	r := sysx.OpenReal(dbName, frames*4)
-	r.CreateTable("t1", []sysx.ColDef{{"tag", types.Integer, index_constants.IndexKindInvalid}, {"v", types.Integer, index_constants.IndexKindInvalid}, {"s", types.Varchar, index_constants.IndexKindInvalid}})
+	r.CreateTable("t1", []sysx.ColDef{{"tag", types.Integer, tagIndex}, {"v", types.Integer, index_constants.IndexKindInvalid}, {"s", types.Varchar, index_constants.IndexKindInvalid}})
 	w := &world{r: r, cur: state{}, nextTag: 1}
 	w.commits = append(w.commits, commitRec{0, vf.FsTraceLen(), state{}})
 	return w
@@ -312,3 +315,10 @@ func VF_C01_Reopened1() { reopened(1, true, false) }
 func VF_C01_Reopened2() { reopened(2, true, false) }
 func VF_C02_Reopened2() { reopened(2, false, false) }
 func VF_C20_Reopened2() { reopened(2, false, true) }
+
+// the same with a skip-list index on t1.tag: its pages sit between the table's first and second heap page,
+// are never written before the crash and are rebuilt (newly allocated) by the restart
+func VF_C01_GrowIdx() {
+	tagIndex = index_constants.IndexKindSkipList
+	grow(true)
+}
